@@ -26,6 +26,10 @@ def bad_derivation(rng, kind, base_index, T):
         return {"from": base_index, "ops": [{"op": "point_set", "field": "b", "to": {"undecodable": rng.randrange(1 << 30)}}]}
     if kind == "identity":
         return {"from": base_index, "ops": [{"op": "point_set", "field": "ri", "idx": 0, "to": {"identity": True}}]}
+    if kind == "cancel+":
+        return {"from": base_index, "ops": [{"op": "scalar_add", "field": "d1", "idx": 0, "hex": gen.hx(12345)}]}
+    if kind == "cancel-":
+        return {"from": base_index, "ops": [{"op": "scalar_add", "field": "d1", "idx": 0, "hex": gen.hx(L - 12345)}]}
     if kind == "surplus_d1":
         # one more d1 scalar than the extension degree, tag adjusted so that the bytes still decode
         return {"from": base_index, "ops": [{"op": "set_d1_len", "n": T + 1}]}
@@ -43,7 +47,8 @@ def make_batch(run, rng, k, bad_positions, bad_kind, mixed=True, T=None, bits=No
         if bits * m < 2:
             m = 2
         cap = m * rng.choice([1, 2, 4]) if mixed else m
-        pool_members.append(gen.mk_member(rng, bits, m, cap=cap, T=T, seed=(m == 1 and seeded_some and i % 2 == 0)))
+        pool_members.append(gen.mk_member(rng, bits, m, cap=cap, T=T, seed=(m == 1 and seeded_some and i % 2 == 0),
+                                           ctx={"label": f"c03-member-{i}", "msgs": [["who", "%02x" % i]]} if i % 3 else None))
     picks = [rng.randrange(npool) for _ in range(k)]
     # guarantee that every bad position refers to a member whose aggregation allows the mutation
     for pos in range(k):
@@ -55,6 +60,11 @@ def make_batch(run, rng, k, bad_positions, bad_kind, mixed=True, T=None, bits=No
                 vm.append({"proof": picks[pos], "stmt": st, "ctx": mem["ctx"]})
             elif T + 1 > 6 and bad_kind == "surplus_d1":
                 derived.append(bad_derivation(rng, "r1", picks[pos], T))
+                vm.append(gen.vmember(mem, npool + len(derived) - 1))
+            elif bad_kind == "cancel":
+                # two (or more) members whose defects on the same blinding generator sum to zero: they cancel if their weights coincide
+                sign = "cancel+" if sorted(bad_positions).index(pos) % 2 == 0 else "cancel-"
+                derived.append(bad_derivation(rng, sign, picks[pos], T))
                 vm.append(gen.vmember(mem, npool + len(derived) - 1))
             else:
                 derived.append(bad_derivation(rng, bad_kind, picks[pos], T))
@@ -80,6 +90,9 @@ def gen_specs(run):
             variants.append(([positions[vi % len(positions)]], kinds[vi % len(kinds)]))
         if k >= 3:
             variants.append((sorted(rng.sample(range(k), 2)), "r1"))
+        if k >= 2:
+            variants.append((sorted(rng.sample(range(min(k, 256)), 2)), "cancel"))
+            variants.append(([0, min(k, 256) - 1], "cancel"))
         for (bad, kind) in variants:
             members, derived, vm = make_batch(run, rng, k, set(bad), kind)
             mode = rng.choice(["VerifyOnly", "RecoverAndVerify"])
